@@ -147,6 +147,17 @@ def replayBank (bal : Map Addr Nat) (deposit : Addr) : List Effect → Map Addr 
   | .slash _ _ n :: es => replayBank (Map.set bal deposit (balOf bal deposit - n)) deposit es
   | _ :: es => replayBank bal deposit es
 
+/-- the transfers into `dst` that went through (same replay) -/
+def paidInto (bal : Map Addr Nat) (deposit dst : Addr) : List Effect → List (Addr × Nat)
+  | [] => []
+  | .transfer a b n :: es =>
+    if balOf bal a < n then paidInto bal deposit dst es
+    else
+      let m1 := Map.set bal a (balOf bal a - n)
+      (if b == dst && n != 0 then [(a, n)] else []) ++ paidInto (Map.set m1 b (balOf m1 b + n)) deposit dst es
+  | .slash _ _ n :: es => paidInto (Map.set bal deposit (balOf bal deposit - n)) deposit dst es
+  | _ :: es => paidInto bal deposit dst es
+
 def allAccts (t : Step) : List Addr := (t.pre.bank.bal.map (·.1) ++ t.post.bank.bal.map (·.1)).eraseDups
 
 /-- C02 (last sentence), C05: coins move only as the step's transfer / slash effects say -/
@@ -212,6 +223,14 @@ def batchDebit (t : Step) : Viol :=
       if issued.isEmpty then [] else
         let total := (issued.map (·.2.fee)).sum
         chk (total == 0 || t.effs.contains (.transfer x.cons t.pre.cfg.escrow total)) s!"batch of {issued.length} requests issued without a single debit of their total {total}")
+    -- … and fee money enters the escrow in no other way: every payment into it that went through is the total of
+    -- a batch issued in this block for a context of the payer (a skipped batch costs nothing; a consumer that
+    -- cannot pay is not charged: the bank emitted its event and refused)
+    ++ (paidInto t.pre.bank.bal t.pre.cfg.deposit t.pre.cfg.escrow t.effs).flatMap (fun an =>
+          chk (t.post.ctxs.any (fun p =>
+            p.2.cons == an.1 &&
+            ((t.post.reqs.filter (fun q => q.1.ctx = p.1 ∧ q.1.batch = p.2.batch ∧ q.2.reqH = t.pre.height)).map (·.2.fee)).sum == an.2))
+            s!"{an.1} paid {an.2} into the escrow although no batch with that total was issued for it in this block")
   | _ => []
 
 /-- C03: how a binding's deposit may change in one step; refund preconditions -/
